@@ -350,7 +350,14 @@ func Run(r *vh.Run) {
 	for i := 0; i < trees; i++ {
 		trng := rng.Fork()
 		net := chainx.RandomNet(trng)
-		t := chainx.GenTree(trng, net, genCfg(r, trng))
+		t, gerr := chainx.SafeGenTree(trng, net, genCfg(r, trng))
+		if gerr != nil {
+			gc := &vh.Case{Name: fmt.Sprintf("tree%d/generator", i), Nontrivial: true}
+			gc.Op("build-history", "panic")
+			gc.Oracle("linear-node-panicked-while-building-history", "a node fed a linear chain of freshly mined blocks panicked or rejected a valid block: %v", gerr)
+			r.Add(gc)
+			continue
+		}
 		for s := 0; s < scheds; s++ {
 			RunTree(r, fmt.Sprintf("tree%d/s%d", i, s), t, t.Schedule(trng))
 		}
